@@ -76,3 +76,27 @@ pub assume_specification [i64::abs] (x: i64) -> (r: i64)
 pub assume_specification [i64::unsigned_abs] (x: i64) -> (r: u64)
     ensures r as int == if x >= 0 { x as int } else { -(x as int) };
 
+// Option::transpose : Option<Result<T,E>> -> Result<Option<T>,E>
+pub assume_specification<T, E> [Option::<Result<T, E>>::transpose] (o: Option<Result<T, E>>) -> (r: Result<Option<T>, E>)
+    ensures
+        o is None ==> r == Ok::<Option<T>, E>(None),
+        o is Some && o->Some_0 is Ok ==> r == Ok::<Option<T>, E>(Some(o->Some_0->Ok_0)),
+        o is Some && o->Some_0 is Err ==> r == Err::<Option<T>, E>(o->Some_0->Err_0);
+
+// String::len is the BYTE length: deliberately an uninterpreted value unrelated to the character
+// sequence s@ (so nothing about characters can be concluded from it).
+pub uninterp spec fn spec_byte_len(s: &String) -> usize;
+pub assume_specification [String::len] (s: &String) -> (r: usize)
+    ensures r == spec_byte_len(s);
+
+pub assume_specification<T: Ord> [std::cmp::min::<T>] (a: T, b: T) -> (r: T)
+    ensures r == a || r == b;
+
+pub assume_specification<T> [Option::<T>::or] (a: Option<T>, b: Option<T>) -> (r: Option<T>)
+    ensures r == (if a is Some { a } else { b });
+
+// Chars::count is the CHARACTER count: an uninterpreted value (nothing relates it to the byte length).
+pub uninterp spec fn spec_char_count<'a>(c: std::str::Chars<'a>) -> usize;
+pub assume_specification<'a> [<std::str::Chars<'a> as std::iter::Iterator>::count] (c: std::str::Chars<'a>) -> (r: usize)
+    ensures r == spec_char_count(c);
+
